@@ -71,6 +71,7 @@ func coreMain(args []string) int {
 	readJSON(args[0], &sc)
 	out := newTraceOut(args[1])
 	defer out.close()
+	captureStdio()
 
 	for _, c := range sc.Customs {
 		var opts []slog.RegOpt
@@ -107,7 +108,7 @@ func (r *coreRun) reset() {
 	slog.SetLevel(slog.Level(r.sc.InitLevel))
 	is.SetDebugMode(false)
 	is.SetTraceMode(false)
-	redirectDefaults()
+	takeAll()
 	d := slog.Default().Root()
 	r.loggers = []*slog.Entry{nil, d}
 	r.ids = map[*slog.Entry]int{d: 1}
@@ -314,6 +315,23 @@ func (r *coreRun) exec(ev coreEvent) (rec map[string]any) {
 	return rec
 }
 
+var reSGR = regexp.MustCompile("\x1b\\[[0-9;]*m")
+var reIntAttrText = regexp.MustCompile(`(?:^|[ ,{])"?k(\d\d)"?[=:](-?\d+)`)
+
+// intAttrs projects the integer attributes with keys kNN out of a record in any format, in
+// printed order, as [[key, value], ...].
+func intAttrs(p []byte) [][]int {
+	txt := reSGR.ReplaceAllString(string(p), "")
+	res := [][]int{}
+	for _, m := range reIntAttrText.FindAllStringSubmatch(txt, -1) {
+		var k, v int
+		fmt.Sscanf(m[1], "%d", &k)
+		fmt.Sscanf(m[2], "%d", &v)
+		res = append(res, []int{k, v})
+	}
+	return res
+}
+
 var reSkipName = regexp.MustCompile(`^c/.*\[(-?\d+)\]$`)
 
 func (r *coreRun) normName(nm string) string {
@@ -385,7 +403,7 @@ func (r *coreRun) observe(rec map[string]any) {
 			for _, sev := range r.sc.ProbeSevs {
 				sink.reset()
 				l.WriteThru(context.Background(), slog.Level(sev), r.ts, 0, "probe", nil)
-				evs := sink.take()
+				evs := takeAll()
 				if r.obs["shape"] && sev == int(slog.InfoLevel) {
 					for _, e := range evs {
 						if e.K == "w" {
@@ -403,6 +421,18 @@ func (r *coreRun) observe(rec map[string]any) {
 			}
 			if r.obs["dest"] {
 				o["dest"] = dests
+			}
+		}
+		if r.obs["attrs"] {
+			// the logger's own attributes as they are printed (sorted, last value of a key wins):
+			// an Always-severity record through a real verb (WriteThru does not collect them)
+			sink.reset()
+			l.LogAttrs(bg, slog.AlwaysLevel, "attr probe")
+			for _, e := range takeAll() {
+				if e.K == "w" {
+					o["attrs"] = intAttrs(e.payload)
+					break
+				}
 			}
 		}
 		if r.obs["gate"] {
